@@ -32,6 +32,7 @@ import (
 	"time"
 
 	"pgregory.net/rapid"
+	"verif/harness/gen"
 	"verif/harness/h"
 	"verif/harness/ref"
 )
@@ -39,7 +40,7 @@ import (
 func TestMain(m *testing.M) {
 	h.Observe("build", buildTag)
 	h.Observe("GODEBUG", os.Getenv("GODEBUG"))
-	h.Main(m, ref.SelfTestSM3, ref.SelfTestSM2, selfTestReader, selfTestCurves, selfTestSM9, selfTestSM9KAP)
+	h.Main(m, ref.SelfTestSM3, ref.SelfTestSM2, selfTestReader, selfTestCurves, selfTestLegacyCurves, selfTestSM9, selfTestSM9KAP)
 }
 
 // outcome is what an operation returned, in a canonical form.
@@ -145,6 +146,8 @@ type opImpl struct {
 	n      *big.Int // group order
 	hi     *big.Int // largest acceptable scalar: n-1 for nonces, n-2 for private keys
 	tweak  bool     // byte 1 of every candidate is XORed with 0x42 before the range check
+	blk    int      // bytes per candidate block (0 = 32)
+	shift  uint     // the first byte of a candidate is shifted right by this many bits before it is read as an integer (curves whose order is not a whole number of bytes; 0 otherwise)
 	pre    int      // bytes the operation reads before the first candidate
 	vars   int      // number of API variants (opCase.Var)
 	keys   int      // number of fixed keys (opCase.Key)
@@ -167,8 +170,118 @@ func register(o *opImpl) *opImpl {
 }
 
 func (o *opImpl) sampler(stream []byte) *sampler {
-	return &sampler{stream: stream, hi: o.hi, tweak: o.tweak}
+	return &sampler{stream: stream, hi: o.hi, tweak: o.tweak, blk: o.bs(), shift: o.shift}
 }
+
+func (o *opImpl) bs() int {
+	if o.blk == 0 {
+		return 32
+	}
+	return o.blk
+}
+
+func (o *opImpl) plain() bool { return o.bs() == 32 && o.shift == 0 }
+
+// value is the integer a raw candidate block stands for.
+func (o *opImpl) value(b []byte) *big.Int {
+	x := append([]byte{}, b...)
+	if o.shift > 0 && len(x) > 0 {
+		x[0] >>= o.shift
+	}
+	return new(big.Int).SetBytes(x)
+}
+
+// mk returns a raw candidate block of a kind. For the 32-byte rule that is
+// mkBlock; for the other block sizes the kinds are the same values relative
+// to the order, and the bits of the first byte that the rule shifts away are
+// filled with garbage.
+func (o *opImpl) mk(kind int, seed uint64) []byte {
+	if o.plain() {
+		return mkBlock(kind, o.n, seed)
+	}
+	bits := uint(8*o.bs()) - o.shift
+	max := sub1(new(big.Int).Lsh(one, bits))
+	var v *big.Int
+	switch kind {
+	case kZero:
+		v = new(big.Int)
+	case kOne:
+		v = big.NewInt(1)
+	case kNm2:
+		v = sub2(o.n)
+	case kNm1:
+		v = sub1(o.n)
+	case kN:
+		v = new(big.Int).Set(o.n)
+	case kNp1:
+		v = new(big.Int).Add(o.n, one)
+	case kMax:
+		v = max
+	case kRandLess:
+		v = new(big.Int).SetBytes(gen.Fill(gen.Mix(seed, 0x6c657373), o.bs()))
+		v.And(v, max)
+		if v.Cmp(o.n) >= 0 {
+			v.Sub(v, o.n)
+		}
+		if v.Sign() == 0 {
+			v.SetInt64(1)
+		}
+	case kRandGeq:
+		v = new(big.Int).SetBytes(gen.Fill(gen.Mix(seed, 0x67657120), 8))
+		v.Add(v, o.n)
+		if v.Cmp(max) > 0 {
+			v.Set(max)
+		}
+	default:
+		panic("c12: bad block kind")
+	}
+	b := v.FillBytes(make([]byte, o.bs()))
+	if o.shift > 0 {
+		b[0] = b[0]<<o.shift | byte(gen.Mix(seed, 0x6a756e6b))&(1<<o.shift-1)
+	}
+	return b
+}
+
+// stream assembles the main stream of a case (see buildStream).
+func (o *opImpl) stream(c *opCase) []byte {
+	if o.plain() {
+		return buildStream(c, o.pre, o.tweak, o.n)
+	}
+	s := append([]byte{}, gen.Fill(gen.Mix(c.Seed, 0x707265), o.pre)...)
+	for _, b := range c.Blocks {
+		s = append(s, b...)
+	}
+	for i := 0; i < tailBlocks; i++ {
+		b := o.mk(kRandLess, gen.Mix(c.Seed, 0x7461696c, uint64(i)))
+		b[len(b)-1] |= 1
+		s = append(s, b...)
+	}
+	return s
+}
+
+// kindOf names the kind a raw block falls into (evidence only).
+func (o *opImpl) kindOf(b []byte) string {
+	v := o.value(b)
+	if o.tweak {
+		v = new(big.Int).SetBytes(b) // Blocks hold the intended values
+	}
+	return o.kindOfValue(v)
+}
+
+func (o *opImpl) kindOfValue(v *big.Int) string {
+	max := sub1(new(big.Int).Lsh(one, uint(8*o.bs())-o.shift))
+	for k, w := range map[int]*big.Int{kZero: new(big.Int), kOne: one, kNm2: sub2(o.n), kNm1: sub1(o.n), kN: o.n, kNp1: new(big.Int).Add(o.n, one), kMax: max} {
+		if v.Cmp(w) == 0 {
+			return kindNames[k]
+		}
+	}
+	if v.Cmp(o.n) < 0 {
+		return kindNames[kRandLess]
+	}
+	return kindNames[kRandGeq]
+}
+
+func hexInt(v *big.Int) string { return strings.ToUpper(v.Text(16)) }
 
 // ---------------------------------------------------------------- running the library
 
@@ -281,11 +394,11 @@ func checkCase(c opCase, r *h.Rec) error {
 		return fmt.Errorf("harness: unknown operation %q", c.Op)
 	}
 	for _, b := range c.Blocks {
-		if len(b) != 32 {
+		if len(b) != o.bs() {
 			return fmt.Errorf("harness: candidate block of %d bytes", len(b))
 		}
 	}
-	stream := buildStream(&c, o.pre, o.tweak, o.n)
+	stream := o.stream(&c)
 	if c.Fault == faultNone {
 		return checkFidelity(o, &c, stream, r)
 	}
@@ -295,7 +408,7 @@ func checkCase(c opCase, r *h.Rec) error {
 func describe(o *opImpl, c *opCase, stream []byte) string {
 	var kinds []string
 	for _, b := range c.Blocks {
-		kinds = append(kinds, classify(b, o.n))
+		kinds = append(kinds, o.kindOf(b))
 	}
 	return fmt.Sprintf("op=%s var=%d key=%d msglen=%d force=%d chunk=%d flags=%d peer-struct-curve=%s candidates=%v stream=%s", c.Op, c.Var, c.Key, c.MsgLen, c.Force, c.Chunk, c.Flags, peerCurveNames[c.Peer%len(peerCurveNames)], kinds, h.Hex(stream))
 }
@@ -312,8 +425,11 @@ func checkFidelity(o *opImpl, c *opCase, stream []byte, r *h.Rec) error {
 	firstKind := "none"
 	firstRejected := false
 	if len(c.Blocks) > 0 {
-		firstKind = classify(c.Blocks[0], o.n)
-		v := new(big.Int).SetBytes(c.Blocks[0])
+		firstKind = o.kindOf(c.Blocks[0])
+		v := o.value(c.Blocks[0])
+		if o.tweak {
+			v = new(big.Int).SetBytes(c.Blocks[0])
+		}
 		firstRejected = v.Sign() == 0 || v.Cmp(o.hi) > 0
 	}
 	r.Label("%s/first=%s", o.name, firstKind)
@@ -328,8 +444,8 @@ func checkFidelity(o *opImpl, c *opCase, stream []byte, r *h.Rec) error {
 	if exp.retry != "" {
 		r.Label("%s/retry:%s", o.name, exp.retry)
 	}
-	r.Label("%s/accepted=%s", o.name, classify(b32(exp.k), o.n))
-	if exp.k.Bit(255) == 1 {
+	r.Label("%s/accepted=%s", o.name, o.kindOfValue(exp.k))
+	if exp.k.Bit(o.n.BitLen()-1) == 1 {
 		r.Label(o.name + "/accepted-has-top-bit")
 	}
 	if c.Chunk > 0 {
@@ -343,14 +459,14 @@ func checkFidelity(o *opImpl, c *opCase, stream []byte, r *h.Rec) error {
 		return fmt.Errorf("%s on a fault-free stream: %s\n%s", o.name, res.panicked, describe(o, c, stream))
 	}
 	if res.err != nil {
-		return fmt.Errorf("%s failed on a fault-free stream that holds an acceptable scalar (%s): %v\n%s", o.name, ref.Hex32(exp.k), res.err, describe(o, c, stream))
+		return fmt.Errorf("%s failed on a fault-free stream that holds an acceptable scalar (%s): %v\n%s", o.name, hexInt(exp.k), res.err, describe(o, c, stream))
 	}
 	if res.out.argErr != nil {
 		return fmt.Errorf("%s: %v\n%s", o.name, res.out.argErr, describe(o, c, stream))
 	}
 	if err := o.verify(c, exp, res.out); err != nil {
-		return fmt.Errorf("%s: %v\n  the sampling rule (first 32-byte block in [1, %s], %d refused before it%s) gives %s\n%s",
-			o.name, err, map[bool]string{true: "n-1", false: "n-2"}[o.hi.Cmp(sub1(o.n)) == 0], smp.rejected, retryNote(exp), ref.Hex32(exp.k), describe(o, c, stream))
+		return fmt.Errorf("%s: %v\n  the sampling rule (first %d-byte block in [1, %s], %d refused before it%s) gives %s\n%s",
+			o.name, err, o.bs(), map[bool]string{true: "n-1", false: "n-2"}[o.hi.Cmp(sub1(o.n)) == 0], smp.rejected, retryNote(exp), hexInt(exp.k), describe(o, c, stream))
 	}
 	if res.consumed != smp.off {
 		return fmt.Errorf("%s consumed %d bytes of the random stream; the sampling rule needs exactly %d (reads %v, %d blocks refused%s); requests seen: %v\n%s",
@@ -432,7 +548,7 @@ func checkFault(o *opImpl, c *opCase, stream []byte, r *h.Rec) error {
 		return nil
 	}
 	r.NT()
-	blk := (c.At - o.pre) / 32
+	blk := (c.At - o.pre) / o.bs()
 	switch {
 	case c.At < o.pre:
 		r.Label(o.name + "/fault-in=prefix-read")
@@ -492,7 +608,7 @@ func genFidelity(names ...string) func(*rapid.T) opCase {
 		if o.msgLen != nil {
 			c.MsgLen = rapid.SampledFrom(o.msgLen).Draw(t, "msglen")
 		}
-		c.Blocks = drawBlocks(t, o.n)
+		c.Blocks = drawBlocks(t, o.mk)
 		c.Chunk = drawChunk(t)
 		c.Flags = rapid.SampledFrom([]int{0, 0, 0, 0, 1, 2, 3, 4, 5, 6, 7, 7}).Draw(t, "flags")
 		if o.peers > 1 && rapid.Bool().Draw(t, "foreignPeerStruct") {
@@ -523,7 +639,7 @@ func genFault(names ...string) func(*rapid.T) opCase {
 		c := fid(t)
 		o := ops[c.Op]
 		c.Fault = rapid.IntRange(1, numFaultModes).Draw(t, "fault")
-		max := o.pre + 32*(len(c.Blocks)+2) + 16
+		max := o.pre + o.bs()*(len(c.Blocks)+2) + 16
 		c.At = rapid.IntRange(0, max).Draw(t, "at")
 		return c
 	}
@@ -540,7 +656,7 @@ func scenarios(o *opImpl) []opCase {
 			c.MsgLen = o.msgLen[i%len(o.msgLen)]
 		}
 		for j, k := range kinds {
-			c.Blocks = append(c.Blocks, mkBlock(k, o.n, seed+uint64(100*i+j)))
+			c.Blocks = append(c.Blocks, o.mk(k, seed+uint64(100*i+j)))
 		}
 		return c
 	}
@@ -600,7 +716,7 @@ func sweepFaults(t *testing.T, names ...string) {
 		o := ops[name]
 		h.Sweep(t, h.P{Name: name + "-fault-sweep"}, func(emit func(opCase)) {
 			for _, sc := range scenarios(o) {
-				stream := buildStream(&sc, o.pre, o.tweak, o.n)
+				stream := o.stream(&sc)
 				smp := o.sampler(stream)
 				o.model(&sc, smp)
 				if smp.short {
@@ -648,12 +764,12 @@ func genHistory(names ...string) func(*rapid.T) histCase {
 		for i, k := range pat {
 			c := first
 			if i > 0 {
-				c = fid(t)
+				c = genFidelity(hc.Op)(t) // candidates of this operation's order and block size
 				c.Op, c.Var, c.Key = hc.Op, hc.Var, hc.Key
 			}
 			if k == 'F' {
 				c.Fault = rapid.IntRange(1, numFaultModes).Draw(t, "fault")
-				c.At = rapid.IntRange(0, o.pre+31).Draw(t, "at")
+				c.At = rapid.IntRange(0, o.pre+o.bs()-1).Draw(t, "at")
 			}
 			hc.Steps = append(hc.Steps, c)
 		}
